@@ -25,6 +25,49 @@ def canary_c01():
     return [] if any(k == "caps.unknown" for k, _ in bad) else ["c01 canary not flagged"]
 
 
+def canary_c17():
+    """A breaker whose lock is a no-op must be flagged at pre-emption bound 1."""
+    import contextlib
+
+    from . import threads as T
+
+    prog = {"name": "canary lock-free allow||allow", "component": "breaker",
+            "cfg": {"threshold": 1, "window": 8, "recovery": 2},
+            "setup": [("failure", "T"), ("tick", 2)], "threads": [[("allow",)], [("allow",)]]}
+    orig = T.install_model_locks
+
+    def no_locks(obj, sched):
+        for name, val in list(vars(obj).items()):
+            if isinstance(val, T._LOCK_TYPES):
+                setattr(obj, name, contextlib.nullcontext())
+        return 0
+
+    T.install_model_locks = no_locks
+    try:
+        r = T.explore_program(prog, 1, "line")
+    finally:
+        T.install_model_locks = orig
+    return [] if r["viol_keys"].get("c17.not-linearizable") else ["c17 canary (lock-free) not flagged"]
+
+
+def canary_c06():
+    """The reference must reject a breaker that opens one failure early."""
+    from . import statebfs
+
+    cfg = {"threshold": 2, "window": 4, "recovery": 2, "class_thresholds": {}, "trip_on": ["T"]}
+    orig = statebfs.make_breaker
+
+    def early(c, clock):
+        return orig(dict(c, threshold=c["threshold"] - 1), clock)
+
+    statebfs.make_breaker = early
+    try:
+        r = statebfs.bfs_raw(cfg, 3, ["T", "U"])
+    finally:
+        statebfs.make_breaker = orig
+    return [] if r["nviol"] else ["c06 canary (early opening) not flagged"]
+
+
 def run_all():
     out = []
     for name, fn in sorted(globals().items()):
